@@ -558,6 +558,8 @@ Definition apply_write (shp : list Z) (i : nat) (w : write) (s : snapshot) : sna
               end in
   let dt := match b with Charge => F64 | _ => w_dt w end in
   let fresh := {| a_dt := dt; a_shape := shp'; a_vals := iota v (nelems shp') |} in
+  if v <? 0 then (s, false)        (* a negative entry: the writer does nothing at this step *)
+  else
   match w_mode w, get s b with
   | WAssign, _ | _, None => (set s b (Some fresh), true)
   | WIAdd, Some old =>
@@ -669,25 +671,40 @@ Definition expected_dims (a : arr) : list string :=
   then ["time"%string; "wavelength"%string; "y"%string; "x"%string]
   else ["time"%string; "y"%string; "x"%string].
 
-(* does the observed variable of bucket b consist of exactly the given slices (in order)? *)
+(* the driver reports NaN (and any value that is not an integer) as this number *)
+Definition nan_mark : Z := -777777.
+
+Definition is_none {A} (o : option A) : bool := match o with None => true | Some _ => false end.
+
+Fixpoint first_some {A} (l : list (option A)) : option A :=
+  match l with
+  | [] => None
+  | Some a :: _ => Some a
+  | None :: l' => first_some l'
+  end.
+
+(* does the observed variable of bucket b consist of exactly the given slices (in order)?  A step at which the
+   container was not initialised gives an all-NaN slice (and makes the variable float64: xr.concat broadcasts
+   the NaN scalar of that step against the arrays of the others). *)
 Definition var_matches (exact : bool) (n : nat) (b : bucket) (sl : list (option arr)) (vs : list ovar) : bool :=
   match find_var b vs with
   | None => false
   | Some v =>
-      match sl with
-      | [] => false
-      | None :: _ =>
+      match first_some sl with
+      | None =>
           (* never initialised: NaN along time only *)
-          forallb (fun o => match o with None => true | Some _ => false end) sl
+          negb (Nat.eqb (List.length sl) 0)
           && string_list_eqb (ov_dims v) ["time"%string] && zlist_eqb (ov_shape v) [Z.of_nat n]
-      | Some a0 :: _ =>
+          && match ov_vals v with [] => true | _ => false end      (* the driver: [] = all NaN *)
+      | Some a0 =>
           let k := List.length (a_vals a0) in
+          let mixed := existsb is_none sl in
           string_list_eqb (ov_dims v) (expected_dims a0)
           && zlist_eqb (ov_shape v) (Z.of_nat n :: a_shape a0)
           && (List.length (ov_vals v) =? n * k)%nat
           && forallb (fun p => match fst p with
-                               | None => false
-                               | Some a => (negb exact || dtype_eqb (a_dt a) (ov_dt v))
+                               | None => forallb (Z.eqb nan_mark) (snd p)
+                               | Some a => (negb exact || dtype_eqb (if mixed then F64 else a_dt a) (ov_dt v))
                                            && (negb (bucket_eqb b Image) || dtype_eqb (a_dt a) (ov_dt v))
                                            && zlist_eqb (a_shape a) (a_shape a0)
                                            && zlist_eqb (a_vals a) (snd p)
@@ -697,10 +714,10 @@ Definition var_matches (exact : bool) (n : nat) (b : bucket) (sl : list (option 
 
 Definition range0 (n : Z) : list Z := iota 0 (Z.to_nat n).
 
-(* buckets initialised in every step or in none: the ones the property speaks about *)
-Definition judged (sl : list (option arr)) : bool :=
-  forallb (fun o => match o with None => true | Some _ => false end) sl
-  || forallb (fun o => match o with None => false | Some _ => true end) sl.
+(* what is judged: every bucket initialised in every step or in none, and the float buckets initialised in some
+   steps only (an integer image that is missing at some step goes through NaN and a cast: not judged) *)
+Definition judged (b : bucket) (sl : list (option arr)) : bool :=
+  forallb is_none sl || forallb (fun o => negb (is_none o)) sl || negb (bucket_eqb b Image).
 
 Definition dataset_matches (exact : bool) (rows cols : Z) (ds : dataset) (o : otree) : bool :=
   let n := List.length ds in
@@ -708,7 +725,7 @@ Definition dataset_matches (exact : bool) (rows cols : Z) (ds : dataset) (o : ot
   && zlist_eqb (o_y o) (range0 rows) && zlist_eqb (o_x o) (range0 cols)
   && (List.length (o_vars o) =? 5)%nat
   && forallb (fun b => let sl := map (fun ls => get (snd ls) b) ds in
-                       negb (judged sl) || var_matches exact n b sl (o_vars o)) all_buckets.
+                       negb (judged b sl) || var_matches exact n b sl (o_vars o)) all_buckets.
 
 Fixpoint capture_eqb (a b : capture) : bool :=
   match a, b with
